@@ -36,8 +36,8 @@ def prof(profile, n, ops=1, **kw):
 
 
 PROPS = {
-    'C01': dict(quick=dict(profiles=[seq('C01', 480, 40)]), thorough=dict(profiles=[seq('C01', 3200, 100)])),
-    'C02': dict(quick=dict(profiles=[seq('C02', 480, 40), prof('crash', 32, 10)]),
+    'C01': dict(quick=dict(profiles=[seq('C01', 960, 40)]), thorough=dict(profiles=[seq('C01', 3200, 100)])),
+    'C02': dict(quick=dict(profiles=[seq('C02', 960, 40), prof('crash', 32, 10)]),
                 thorough=dict(profiles=[seq('C02', 3200, 100), prof('crash', 96, 40)]),
                 # of the crash / power-loss images only what concerns offsets: NextOffset after recovery, and the
                 # append after it (an offset assigned twice shows there); the rest of those images is C05 / C06, and so
@@ -48,8 +48,8 @@ PROPS = {
                      "what concerns offsets: NextOffset after Open(Recover) not backwards and above every live offset, and the append after recovery "
                      "(an offset assigned twice shows there as a failed Check)",
                 viol_line_regex=r'^VIOL \d+ (?!.*\brebase=1\b)(?!Crash(Content|Views|RecoverAgain|Retry|Migrate|OpenFails)\b|Loss(BelowSync|NotPrefix|Views|RecoverAgain|OpenFails)\b)'),
-    'C03': dict(quick=dict(profiles=[seq('C03', 192, 24)]), thorough=dict(profiles=[seq('C03', 1600, 40)])),
-    'C04': dict(quick=dict(profiles=[seq('C04', 480, 30)]), thorough=dict(profiles=[seq('C04', 3200, 60)])),
+    'C03': dict(quick=dict(profiles=[seq('C03', 384, 24)]), thorough=dict(profiles=[seq('C03', 1600, 40)])),
+    'C04': dict(quick=dict(profiles=[seq('C04', 960, 30)]), thorough=dict(profiles=[seq('C04', 3200, 60)])),
     'C05': dict(quick=dict(profiles=[prof('crash', 96, 10)]), thorough=dict(profiles=[prof('crash', 320, 112)]),
                 viol_line_regex=r'^VIOL \d+ \S+ (?!loss\.img)',
                 rule="workloads of publish (with rollover), delete in reader and head segments (rebasing, emptying, tail), sync, close and reopen with "
@@ -88,11 +88,11 @@ PROPS = {
                 assumptions=["the Go race detector sees the races of the schedules that ran (it is not exhaustive)",
                              "pause points mark the windows the property names; windows inside the kernel (page-wise visibility of one write) are only reached by the free-running part",
                              "Stat is excepted from linearizability, as the property states"]),
-    'C09': dict(quick=dict(profiles=[seq('C09', 288, 30)]), thorough=dict(profiles=[seq('C09', 2400, 60)])),
-    'C10': dict(quick=dict(profiles=[seq('C10', 384, 30)]), thorough=dict(profiles=[seq('C10', 2400, 60)])),
-    'C11': dict(quick=dict(profiles=[seq('C11', 288, 30)]), thorough=dict(profiles=[seq('C11', 1600, 60)])),
-    'C12': dict(quick=dict(profiles=[seq('C12', 480, 40)]), thorough=dict(profiles=[seq('C12', 3200, 100)])),
-    'C13': dict(quick=dict(profiles=[prof('fmt', 12000), seq('C13', 288, 30)]), thorough=dict(profiles=[prof('fmt', 300000), seq('C13', 1600, 80)])),
+    'C09': dict(quick=dict(profiles=[seq('C09', 576, 30)]), thorough=dict(profiles=[seq('C09', 2400, 60)])),
+    'C10': dict(quick=dict(profiles=[seq('C10', 768, 30)]), thorough=dict(profiles=[seq('C10', 2400, 60)])),
+    'C11': dict(quick=dict(profiles=[seq('C11', 576, 30)]), thorough=dict(profiles=[seq('C11', 1600, 60)])),
+    'C12': dict(quick=dict(profiles=[seq('C12', 960, 40)]), thorough=dict(profiles=[seq('C12', 3200, 100)])),
+    'C13': dict(quick=dict(profiles=[prof('fmt', 12000), seq('C13', 576, 30)]), thorough=dict(profiles=[prof('fmt', 300000), seq('C13', 1600, 80)])),
     'C14': dict(quick=dict(profiles=[prof('dread', 32, 8)]), thorough=dict(profiles=[prof('dread', 64, 108)]),
                 rule="multi-segment V2 logs built through the API (rollover 120-300 bytes, key index, time index on/off, deletes); a baseline sweep of every "
                      "read call (Consume from every offset in [-2, next+1] x maxCount {1,3,32}, Get of every offset, GetByKey of every key and an absent "
@@ -106,9 +106,9 @@ PROPS = {
                 assumptions=["index files intact (as the property states)", "the harness computes which records had bytes changed from the intact index (trusted)",
                              "overwrites of 5-8 bytes and changes of the length fields are detected by CRC-32C only with probability 1-2^-32: the theorems "
                              "cover bursts <= 4 bytes outside the length fields; the rest is observed"]),
-    'C15': dict(quick=dict(profiles=[seq('C15', 480, 40)]), thorough=dict(profiles=[seq('C15', 3200, 100)])),
-    'C16': dict(quick=dict(profiles=[seq('C16', 480, 40)]), thorough=dict(profiles=[seq('C16', 3200, 100)])),
-    'C17': dict(quick=dict(profiles=[seq('C17', 480, 40)]), thorough=dict(profiles=[seq('C17', 3200, 100)])),
+    'C15': dict(quick=dict(profiles=[seq('C15', 960, 40)]), thorough=dict(profiles=[seq('C15', 3200, 100)])),
+    'C16': dict(quick=dict(profiles=[seq('C16', 960, 40)]), thorough=dict(profiles=[seq('C16', 3200, 100)])),
+    'C17': dict(quick=dict(profiles=[seq('C17', 960, 40)]), thorough=dict(profiles=[seq('C17', 3200, 100)])),
     'C18': dict(quick=dict(profiles=[prof('notify', 480, 18), prof('blocking', 160, 24), prof('bstorm', 320, 20, race=True)]),
                 thorough=dict(profiles=[prof('notify', 16000, 28), prof('blocking', 3200, 40), prof('bstorm', 16000, 40, race=True)]),
                 rule="(a) schedules of Wait/Set/Close calls on the real notify.Offset driven instruction by instruction through the verif pause points "
@@ -127,6 +127,6 @@ PROPS = {
                              "parameters of the model (trusted)",
                              "quiescence is observed by polling with a grace period of 3 s for calls that are due to return",
                              "in the storms 'stays blocked while nothing happens' cannot be observed (publishes happen all the time); the notify and blocking profiles observe it"]),
-    'C19': dict(quick=dict(profiles=[prof('lock', 3200, 12), seq('C19', 144, 24)]), thorough=dict(profiles=[prof('lock', 40000, 16), seq('C19', 800, 50)])),
-    'C20': dict(quick=dict(profiles=[seq('C20', 384, 30)]), thorough=dict(profiles=[seq('C20', 2400, 60)])),
+    'C19': dict(quick=dict(profiles=[prof('lock', 3200, 12), seq('C19', 288, 24)]), thorough=dict(profiles=[prof('lock', 40000, 16), seq('C19', 800, 50)])),
+    'C20': dict(quick=dict(profiles=[seq('C20', 768, 30)]), thorough=dict(profiles=[seq('C20', 2400, 60)])),
 }
